@@ -196,7 +196,11 @@ class LiteralEvaluator:
 			else:
 				return float(arguments[0])
 		elif org_calls == 'str':
-			return f'"{str(arguments[0])}"'
+			# 文字列リテラルは引用符付きで保持しているため、そのまま返す
+			if isinstance(arguments[0], str):
+				return arguments[0]
+			else:
+				return f'"{str(arguments[0])}"'
 
 		raise Errors.OperationNotAllowed(node, calls, arguments)
 
